@@ -128,8 +128,11 @@ def run_case(case):
             m = sum(t.numel(o) for o in outs)
             model = sorted(model_leaves(t, outs))
             agg = lambda: Constant(torch.tensor(W[:m], dtype=torch.float64))  # noqa: E731
-            ea = _try(lambda: backward([A[o] for o in outs], agg()))
-            eb = _try(lambda: backward([B[o] for o in outs], agg(), inputs=[B[l] for l in model]))
+            # a single output is passed as a bare tensor (Sequence[Tensor] | Tensor)
+            ta = A[outs[0]] if len(outs) == 1 else [A[o] for o in outs]
+            tb = B[outs[0]] if len(outs) == 1 else [B[o] for o in outs]
+            ea = _try(lambda: backward(ta, agg()))
+            eb = _try(lambda: backward(tb, agg(), inputs=[B[l] for l in model]))
             execs += 2
             where = f"backward {P.prog_str(prog, outs)} | model inputs={model}"
             if set(model) != grad_leaves:
